@@ -11,6 +11,9 @@ OneName == {"a"}
 PNames == {"a", "ab"}
 \* a name that starts with a dot (valid, like any other)
 DNames == {".a", "a"}
+\* names with characters that mean something to path.Match / glob: they are ordinary names ("a[b]" as a pattern matches "ab")
+GNames == {"a[b]", "ab"}
+SNames == {"a*", "ab"}
 TTimes == {"T1", "T2"}
 OneData == { <<1>> }
 ==========================================================================
